@@ -49,8 +49,16 @@ def token_wf(val, typ):
         z3.Implies(typ == z3.StringVal("int"), z3.InRe(val, z3.Plus(DIG))),
         z3.Implies(typ == z3.StringVal("decimal"), z3.InRe(val, z3.Concat(z3.Plus(DIG), z3.Re(z3.StringVal(".")), z3.Star(DIG)))),
         z3.Implies(typ == z3.StringVal("pattern"), z3.Length(val) >= 4),
-        z3.Implies(typ == z3.StringVal("identifier"), z3.And(*[val != z3.StringVal(k) for k in WORDS_NOT_IDENTIFIERS])),
-        z3.Implies(typ == z3.StringVal("keyword"), z3.Or(*[val == z3.StringVal(k) for k in WORDS_NOT_IDENTIFIERS[:-2]])))
+        z3.Implies(typ == z3.StringVal("identifier"), z3.Not(RESERVED(val))))
+
+
+RESERVED = z3.Function("RESERVED_WORD", z3.StringSort(), z3.BoolSort())
+
+
+def reserved_facts():
+    """ground facts about the uninterpreted predicate RESERVED: it holds of every keyword and of TRUE / FALSE (the scanner
+    step obligation in c01.py proves `identifier tokens are none of these words` against the real lexer.KEYWORDS)"""
+    return z3.And(*[RESERVED(z3.StringVal(k)) for k in WORDS_NOT_IDENTIFIERS])
 
 
 def make_lexer(w, it, nonempty=True):
@@ -73,6 +81,7 @@ def make_lexer(w, it, nonempty=True):
     lx = Obj(lex["Lexer"], {"script": "", "name": SStr(z3.String("fname")), "tokens": tokens, "nextToken": SInt(z3.Int("nt0"))})
     lx.fresh = False
     it.assume(z3.And(N >= (1 if nonempty else 0), z3.Int("nt0") >= 0, z3.Int("nt0") <= N))
+    it.path.assume(reserved_facts(), check=False)
     return lx
 
 
@@ -103,6 +112,10 @@ class AbsNodeFactory:
         return m["cls"]
 
     def isinstance(self, it, v, cl, n):
+        if v.sort == "anyobj":
+            if cl.name == "object":
+                return True
+            it.unsupported(f"isinstance({cl.name}) of an element of a havocked list of unknown element kind", n)
         if v.sort != "node":
             return cl.name == "object"
         if cl.name == "object":
@@ -123,6 +136,14 @@ class AbsNodeFactory:
             r = SElem(z3.Int(it.fresh("npos")), "pos")
         elif name == "collectVars":
             r = Builtin("ParsedNode.collectVars", lambda it_, a, k, n: None)
+        elif name in ("hasFinally", "hasCatch"):
+            r = Builtin("ParsedNode." + name, lambda it_, a, k, n: it_.fresh_bool(name))
+        elif name.startswith(("add", "set")):
+            # a mutator of some node class: the tree a sub-parser returned belongs to the program, it is not the caller's to change
+            def mutator(it_, a, k, n, name=name):
+                it_.check(f"frame:a-node-returned-by-a-sub-parser-is-not-modified ({name})", False, n)
+                return None
+            r = Builtin("ParsedNode." + name, mutator)
         else:
             c = self.cls_of(it, v)
             if c == "NodeIdentifier" and name == "value":
@@ -131,10 +152,14 @@ class AbsNodeFactory:
                 r = self.node(it, "retexpr") if it.path.choose(2) == 0 else None
             elif c == "NodeBlock" and name in ("expressions", "catchexprs", "finallyexprs"):
                 r = PList(sym=z3.Const(it.fresh(name), z3.SeqSort(z3.IntSort())), kind="node")
+                r.fresh = False
+                r.of_parsed_node = True
             elif c == "NodeBlock" and name == "toplevel":
                 r = it.fresh_bool("toplevel")
             elif c == "NodeList" and name == "items":
                 r = PList(sym=z3.Const(it.fresh("items"), z3.SeqSort(z3.IntSort())), kind="node")
+                r.fresh = False
+                r.of_parsed_node = True
             else:
                 it.throw("AttributeError", f"'{c}' object has no attribute '{name}'", node)
         m[name] = r
@@ -147,10 +172,28 @@ class AbsNodeFactory:
         w.hooks["elem_isinstance"] = self.isinstance
         w.hooks["elem_attr"] = self.attr
         w.hooks["value_as_elem"] = lambda it, value, node: value if isinstance(value, SElem) else SElem(z3.Int(it.fresh("anyid")), "any")
+        # lists havocked by a loop contract without a declared element kind: their elements may be anything
+        w.elem_kinds["any"] = (lambda it, z: SElem(z, "anyobj"), lambda it, v: z3.Int(it.fresh("anyid")))
+        def wrap_pair(it, z):
+            # an element of NodeBlock.catchexprs: [error expression or None (catch all), handler]
+            memo = it.ghost.setdefault("pairs", {})
+            key = str(z3.simplify(z))
+            if key not in memo:
+                err = self.node(it, "catcherr") if it.path.choose(2) == 0 else None
+                memo[key] = PList([err, self.node(it, "handler")])
+            return memo[key]
+
+        def unwrap_pair(it, v):
+            if isinstance(v, PList) and not v.is_sym() and len(v.items) == 2:
+                z = z3.Int(it.fresh("pair"))
+                it.ghost.setdefault("pairs", {})[str(z)] = v
+                return z
+            return None
+        w.elem_kinds["catchpair"] = (wrap_pair, unwrap_pair)
         w.elem_kinds["node"] = (lambda it, z: SElem(z, "node"), lambda it, v: v.z if isinstance(v, SElem) and v.sort == "node" else z3.Int(it.fresh("nodeid")))
 
 
-def parser_units(w, prop):
+def parser_units(w, prop, only=None):
     V = Vals(w)
     U = []
     parser = w.import_module("ckl.parser").ns
@@ -247,6 +290,10 @@ def parser_units(w, prop):
         def post(it, c, o):
             lexer = c["lexer"]
             cur, start = nt(lexer), z3.Int("nt0")
+            # (the tail-return rewrite of NodeLambda.setBody replaces the last statement `return e` of a body block by `e`:
+            #  an element replacement, the only write to a parsed node that is part of the design)
+            foreign = [(type(obj).__name__, what) for obj, what, _ in it.writes if getattr(obj, "of_parsed_node", False) and what != "[]="]
+            it.check("frame:nodes-returned-by-sub-parsers-are-not-modified", not foreign, detail=str(foreign[:3]))
             if o.kind == "raise":
                 if o.exc.fields.get("_from_callee"):
                     it.check("raises:callee-syntax-error-propagates", True)
@@ -268,12 +315,14 @@ def parser_units(w, prop):
             else:
                 it.check("post:returns-a-node-cursor-not-moved-backwards", z3.And(o.value is not None, cur >= start))
         u = Unit(f"parser.py::{name}", setup2, post, name=f"parser.py::{name}[abstract token stream]", body=body, allowed=("CklSyntaxError",),
-                 abstractions=ABS, config={"default_loop": default_loop, "max_unroll": 30, "max_depth": 30, "local_kinds": {"identifiers": "str"}, "merge_boolops": True},
+                 abstractions=ABS, config={"default_loop": default_loop, "max_unroll": 30, "max_depth": 30, "local_kinds": {"identifiers": "str", ".expressions": "node", ".finallyexprs": "node", ".catchexprs": "catchpair"}, "merge_boolops": True},
                  replay=replay_fuzz, prepare=NF.install)
         return u
     for name in STRICT + LITERALS + list(POSTFIX):
-        if name in parser:
+        if name in parser and (only is None or name in only):
             U.append(fn_unit(name))
+    if only is not None:
+        return U
 
     # parse(lexer): entry point
     def s_parse(it):
